@@ -93,6 +93,8 @@ def small_case(draw):
     out['alpha'] = draw(st.sampled_from(COEFS))
     out['beta'] = draw(st.sampled_from(COEFS))
     out['int_scores'] = draw(st.sampled_from(['none', 'none', 'relevance', 'all']))   # integral scores passed as Python ints
+    out['again'] = draw(st.sampled_from([0, 0, 1, 2]))     # history: the caller updates its dictionaries in place and ranks again
+    out['ghost'] = draw(st.sampled_from([0, 0, 0, 1, 3]))  # pair entries that mention a name without relevance entry (not a feature)
     return out
 
 
@@ -107,7 +109,8 @@ def big_case(draw):
                     'rla_self': draw(st.sampled_from([None, 0.0, 1.0, 5.0])),
                     'int_scores': draw(st.sampled_from(['none', 'none', 'relevance', 'all']))},
             'strategy': draw(st.sampled_from(STRATEGIES)),
-            'alpha': draw(st.sampled_from(COEFS)), 'beta': draw(st.sampled_from(COEFS))}
+            'alpha': draw(st.sampled_from(COEFS)), 'beta': draw(st.sampled_from(COEFS)),
+            'again': draw(st.sampled_from([0, 0, 1, 2])), 'ghost': draw(st.sampled_from([0, 0, 0, 1, 3]))}
 
 
 def case_strategy():
@@ -219,9 +222,40 @@ def oracle(case, rec):
             redundancy = {k: as_int(v) for k, v in redundancy.items()}
             relation = {k: as_int(v) for k, v in relation.items()}
         rec.cls('int-typed-scores:' + ints)
-    df = rank_features_3MR(dict(relevance), dict(redundancy), dict(relation), strategy=strategy, alpha=alpha, beta=beta)
     n = len(feats)
+    nghost = int(case.get('ghost') or 0)
+    if nghost:
+        # entries about names that have no relevance entry (e.g. a column whose label pair fell outside the per-batch budget while
+        # its feature-feature pairs were kept): not features, nothing to rank, must not disturb the scores of the features
+        for gi in range(nghost):
+            ghost = f'ghost{gi}'
+            for fi, f in enumerate(feats[:3]):
+                for d, v in ((redundancy, 0.75 + gi), (relation, -0.5 - fi)):
+                    d[(f, ghost)] = v
+                    d[(ghost, f)] = v
+        rec.cls('pairs-naming-unscored-features')
+    R, D, L = dict(relevance), dict(redundancy), dict(relation)      # the caller's own dictionary objects
+    df = rank_features_3MR(R, D, L, strategy=strategy, alpha=alpha, beta=beta)
     msg, order_idx = check_output(df, feats, rel, red, rla, strategy, alpha, beta)
+    for round_ in range(int(case.get('again') or 0) if msg is None else 0):
+        # the caller updates scores IN PLACE (same objects, same keys) and ranks again: the new scores count
+        pos = {f: i for i, f in enumerate(feats)}
+        red = {k: rla.get(k, 0.0) * 0.5 + v for k, v in red.items()} if round_ == 0 else {k: -v for k, v in red.items()}
+        rla = {k: v + (1.0 if (k[0] + k[1]) % 2 else -1.0) for k, v in rla.items()}
+        rel = [r + (0.25 if i % 2 else -0.25) for i, r in enumerate(rel)] if round_ else rel
+        for (a, b) in list(D):
+            if a in pos and b in pos and a != b:
+                D[(a, b)] = red[(min(pos[a], pos[b]), max(pos[a], pos[b]))]
+        for (a, b) in list(L):
+            if a in pos and b in pos and a != b:
+                L[(a, b)] = rla[(min(pos[a], pos[b]), max(pos[a], pos[b]))]
+        for f in feats:
+            R[f] = rel[pos[f]]
+        rec.cls('ranked-again-after-in-place-update')
+        df = rank_features_3MR(R, D, L, strategy=strategy, alpha=alpha, beta=beta)
+        msg, order_idx = check_output(df, feats, rel, red, rla, strategy, alpha, beta)
+        if msg is not None:
+            msg = f'call #{round_ + 2} on the same dictionary objects after an in-place update of the scores: ' + msg
     rec.cls('strategy=' + strategy, 'n=1' if n == 1 else 'n=2' if n == 2 else 'n<=6' if n <= 6 else 'n<=30',
             'alpha=%g' % alpha, 'beta=%g' % beta)
     npairs = n * (n - 1) // 2
